@@ -1,16 +1,28 @@
 /-
-F118 — NewStyledString does not understand the legacy semicolon colour forms that `render` and
-`EncodeCells` write under VAXIS_FORCE_LEGACY_SGR (quirks.go rewrites `:` to `;` in the four SGR
+F118 (fixed in /repo by `fix: NewStyledString understands the legacy semicolon colour forms …`) —
+before the repair NewStyledString did not understand the legacy semicolon colour forms that `render`
+and `EncodeCells` write under VAXIS_FORCE_LEGACY_SGR (quirks.go rewrites `:` to `;` in the four SGR
 format variables). `38;5;1`: cell.go's parseSGR and the embedded terminal read "foreground = palette
-entry 1"; NewStyledString reads 38 as nothing (no sub-parameters), 5 as blink and 1 as bold.
-The full statement `producers_consumers_agree_full` is therefore false of the current code; the
-proved theorem `Props.C18.producers_consumers_agree` is restricted to the colon forms.
-Replayed on the real code by corpus/C18/F118-ss-legacy.ops (known finding F118).
+entry 1"; NewStyledString read 38 as nothing (no sub-parameters), 5 as blink and 1 as bold.
+
+The pre-repair code is kept here as a literal: the same loop interpreted over the arity table the
+extractor produced then (`case "38"` had only `case 3` / `case 5` under `switch len(subs)`), for which
+`accepts 38 1 = false`, i.e. the bare 38 is skipped and `5`, `1` are read on their own.  With it the
+full agreement statement is false; with the regenerated table it holds (`Props.C18.producers_consumers_agree`).
+Replayed on the real code by corpus/C18/F118-ss-legacy.ops (now expected to pass).
 -/
 import VaxisModel.Props.C18
 
 namespace VaxisModel.Witness.F118
 open VaxisModel VaxisModel.Model.Sgr VaxisModel.Gen VaxisModel.Spec VaxisModel.Lemmas.Sgr
+
+/-- The arities of NewStyledString before the repair. -/
+def ssCfgOld : Cfg :=
+  ⟨SgrCases.ssParseLabels, [(4, [1, 2], true), (38, [3, 5], false), (48, [3, 5], false), (58, [3, 5], false)],
+   SgrCases.ssParseUlSubs⟩
+
+def ssSeqOld (dflt s : Style) (ps : Seq) : Except Panic Style :=
+  if ps.isEmpty then .ok dflt else ssLoop ssCfgOld dflt (ps.map (·.map tokN)) s
 
 /-- The sequence is in the producers' range (legacy quirk on). -/
 theorem witness_in_range : emittableLegacy [[38], [5], [1]] = true := by decide
@@ -22,14 +34,21 @@ theorem witness_emitted :
 
 theorem parse_reads_colour : parseSGR {} [[38], [5], [1]] = .ok { fg := VaxisModel.Model.Color.indexColor 1 } := by rfl
 theorem emu_reads_colour : emuSgr {} [[38], [5], [1]] = .ok { fg := VaxisModel.Model.Color.indexColor 1 } := by rfl
-theorem ss_reads_blink_bold :
-    ssSeq {} {} [[38], [5], [1]] = .ok { attr := SgrCases.AttrBlink ||| SgrCases.AttrBold } := by rfl
+/-- Before the repair. -/
+theorem ss_old_reads_blink_bold :
+    ssSeqOld {} {} [[38], [5], [1]] = .ok { attr := SgrCases.AttrBlink ||| SgrCases.AttrBold } := by rfl
+/-- After the repair (the regenerated arity table). -/
+theorem ss_reads_colour : ssSeq {} {} [[38], [5], [1]] = .ok { fg := VaxisModel.Model.Color.indexColor 1 } := by rfl
 
-theorem producers_consumers_agree_full_fails : ¬ Props.C18.producers_consumers_agree_full := by
+/-- The full agreement statement with the pre-repair NewStyledString is false. -/
+theorem producers_consumers_agree_full_fails_unfixed :
+    ¬ (∀ (s : Style), s.wf → ∀ q, emittableLegacy q = true →
+        ∃ s', parseSGR s q = .ok s' ∧ emuSgr s q = .ok s' ∧ ssSeqOld {} s q = .ok s' ∧
+          shown s' = Spec.sgr (shown s) q) := by
   intro h
   obtain ⟨s', h1, _, h3, _⟩ := h {} wf_default [[38], [5], [1]] witness_in_range
   rw [parse_reads_colour] at h1
-  rw [ss_reads_blink_bold] at h3
+  rw [ss_old_reads_blink_bold] at h3
   cases h1
   injection h3 with h3
   revert h3
